@@ -65,6 +65,10 @@ def kani_selftest():
         if r is None or r.status != v or (v == 'success' and r.unsat_covers):
             log(f'[selftest] kani: {k}: expected {v}, got {r.status if r else None} {r.unsat_covers if r else ""}')
             ok = False
+        elif v == 'failed' and not any(c.startswith(('C03:', 'C04:')) for c in r.failed_checks):
+            # the failure must be attributable to the property's own assertions
+            log(f'[selftest] kani: {k}: failed checks are not attributed to C03/C04: {r.failed_checks[:3]}')
+            ok = False
     if not ok:
         log(out[-1500:])
     return ok
